@@ -21,6 +21,7 @@ pub struct CallRec {
     pub list_ty: MType,
     pub name: String,
     pub value: SetVal,
+    pub task: Option<usize>,
 }
 
 #[derive(Clone, Copy, PartialEq, Eq, Debug)]
@@ -577,6 +578,7 @@ impl ListMatcher for SetMatcher {
                 list_ty: self.ty.clone(),
                 name: list_name.to_string(),
                 value: sv.clone(),
+                task: kernel::current_task(),
             })
         });
         self.sets.get(list_name).is_some_and(|s| s.contains(&sv))
